@@ -128,9 +128,112 @@ def run_eq_cross(env, sh):
         env.check(env.Not(_eq_outcome(x, y)), 'keys of different types are never equal')
 
 
+def run_eq_ecc_curves(env, sh):
+    """keys on DIFFERENT curves are never equal, whatever their scalars (also when the scalars coincide)"""
+    from Crypto.PublicKey import ECC
+    ca, cb = sh['ca'], sh['cb']
+    d = env.int('d', 64)
+    env.assume(d >= 1)
+    ka = ECC.construct(curve=ca, d=d)
+    kb = ECC.construct(curve=cb, d=d if sh['same_d'] else env.int('d2', 64) + 1)
+    if not sh['priv']:
+        ka, kb = ka.public_key(), kb.public_key()
+    env.check(env.Not(_eq_outcome(ka, kb)), 'keys on %s and %s are not equal' % (ca, cb))
+    env.check(env.Not(_eq_outcome(kb, ka)), 'keys on %s and %s are not equal (other order)' % (cb, ca))
+
+
+# ---- export -> import round trips
+
+NBY = {'P-192': 24, 'P-224': 28, 'P-256': 32, 'P-384': 48, 'P-521': 66, 'Ed25519': 32, 'Ed448': 57, 'Curve25519': 32, 'Curve448': 56}
+
+
+def _ecc_key(env, curve, lead):
+    from Crypto.PublicKey import ECC
+    if not curve.startswith('P-'):
+        try:
+            return ECC.construct(curve=curve, seed=env.bytes('seed', NBY[curve]))
+        except ValueError:
+            env.assume(False)       # abstract-group artefact (listed low-order value), see C15
+    order = int(ECC._curves[curve].order)
+    nb = (order.bit_length() + 7) // 8
+    d = env.int('d', order.bit_length())
+    # private scalars whose big-endian encoding has `lead` leading zero bytes
+    env.assume(env.And(d >= (1 << (8 * (nb - lead - 1))), d < (1 << (8 * (nb - lead))), d < order, d >= 1))
+    return ECC.construct(curve=curve, d=d)
+
+
+def run_ecc_rt(env, sh):
+    from Crypto.PublicKey import ECC
+    curve, fmt = sh['curve'], sh['fmt']
+    key = _ecc_key(env, curve, sh.get('lead', 0))
+    if not sh['priv']:
+        key = key.public_key()
+    kw = dict(format=fmt)
+    if fmt == 'DER' and sh['priv']:
+        kw['use_pkcs8'] = sh.get('pkcs8', True)
+    if fmt in ('DER', 'SEC1') and not curve.startswith(('Ed', 'Curve')):
+        kw['compress'] = False
+    blob = key.export_key(**kw)
+    try:
+        if fmt in ('raw', 'SEC1'):
+            back = ECC.import_key(blob, curve_name=curve)
+        else:
+            back = ECC.import_key(blob)
+    except Exception as e:
+        env.check(False, 'the exported key is accepted by import_key [%s: %s]' % (type(e).__name__, e))
+        return
+    env.check(back.has_private() == key.has_private(), 'privacy preserved by export/import')
+    env.check(back.curve == key.curve, 'curve preserved by export/import')
+    env.check(_eq_outcome(back, key), 'import(export(key)) == key')
+    if key.has_private():
+        if curve.startswith('P-'):
+            env.check(_iv(back.d) == _iv(key.d), 'private scalar preserved')
+        else:
+            env.check(back.seed == key.seed, 'seed preserved')
+    else:
+        a, b = back.pointQ, key.pointQ
+        env.check(_iv(a.x) == _iv(b.x), 'public point preserved')
+
+
+def _iv(x):
+    v = getattr(x, '_value', None)
+    return v if v is not None else int(x)
+
+
+def run_pbes2_rt(env, sh):
+    """PBES2.decrypt(PBES2.encrypt(data, passphrase, scheme), passphrase) == data for every scheme, with data,
+    passphrase, salt and IV symbolic (the parameters travel through the DER AlgorithmIdentifier: PRF OID table,
+    AEAD tag placement, padding)"""
+    from Crypto.IO._PBES import PBES2
+    data = env.bytes('data', sh['n'])
+    pw = env.bytes('pw', sh['pwlen'])
+    cnt = [0]
+
+    def rnd(n):
+        cnt[0] += 1
+        return env.bytes('rnd%d' % cnt[0], n)
+    params = dict(iteration_count=sh.get('count', 2))
+    if sh['prot'].startswith('scrypt'):
+        params = dict(iteration_count=4, block_size=1, parallelization=1)
+    try:
+        blob = PBES2.encrypt(data, pw, sh['prot'], params, rnd)
+    except ValueError:
+        # a derived 3DES key may degenerate to single DES (refused by the cipher): outside the round trip
+        env.check('DES-EDE3' in sh['prot'], 'encrypt() succeeds')
+        env.assume(False)
+        return
+    try:
+        back = PBES2.decrypt(blob, pw)
+    except Exception as e:
+        env.check(False, 'decrypt() accepts what encrypt() produced under the same passphrase [%s: %s]' % (type(e).__name__, e))
+        return
+    env.check(len(back) == len(data) and back == data, 'decrypt(encrypt(data)) == data under the same passphrase')
+
+
 HARNESSES = dict(eq_rsa=Harness('eq_rsa', run_eq_rsa), eq_dsa=Harness('eq_dsa', run_eq_dsa),
                  eq_elgamal=Harness('eq_elgamal', run_eq_elgamal), eq_ecc=Harness('eq_ecc', run_eq_ecc),
-                 eq_cross=Harness('eq_cross', run_eq_cross))
+                 eq_cross=Harness('eq_cross', run_eq_cross), eq_ecc_curves=Harness('eq_ecc_curves', run_eq_ecc_curves),
+                 ecc_rt=Harness('ecc_rt', run_ecc_rt), pbes2_rt=Harness('pbes2_rt', run_pbes2_rt))
 
 
 def shapes(tier):
@@ -146,11 +249,39 @@ def shapes(tier):
             for pb in (False, True):
                 jobs.append(('eq_ecc', dict(curve=curve, bits=64, priv_a=pa, priv_b=pb)))
     jobs.append(('eq_cross', dict()))
+    for ca, cb in (('P-256', 'P-384'), ('P-192', 'P-224'), ('P-384', 'P-521')) if not th else (('P-256', 'P-384'), ('P-192', 'P-224'), ('P-384', 'P-521'), ('P-224', 'P-256'), ('P-192', 'P-521')):
+        for same_d in (True, False):
+            for priv in (True, False):
+                jobs.append(('eq_ecc_curves', dict(ca=ca, cb=cb, same_d=same_d, priv=priv)))
+    # export -> import round trips (binary formats)
+    for curve in ('P-192', 'P-224', 'P-256', 'P-384', 'P-521') if th else ('P-256', 'P-521'):
+        for lead in (0, 1, 2) if th else (0, 1):
+            for pkcs8 in (True, False):
+                jobs.append(('ecc_rt', dict(curve=curve, fmt='DER', priv=True, pkcs8=pkcs8, lead=lead)))
+        jobs.append(('ecc_rt', dict(curve=curve, fmt='DER', priv=False)))
+        jobs.append(('ecc_rt', dict(curve=curve, fmt='SEC1', priv=False)))
+    for curve in ('Ed25519', 'Ed448', 'Curve25519', 'Curve448'):
+        jobs.append(('ecc_rt', dict(curve=curve, fmt='DER', priv=True)))
+        if curve.startswith('Curve'):
+            jobs.append(('ecc_rt', dict(curve=curve, fmt='DER', priv=False)))
+    prfs = ('SHA1', 'SHA224', 'SHA256', 'SHA384', 'SHA512', 'SHA512-224', 'SHA512-256', 'SHA3-224', 'SHA3-256', 'SHA3-384', 'SHA3-512')
+    encs = ('DES-EDE3-CBC', 'AES128-CBC', 'AES192-CBC', 'AES256-CBC', 'AES128-GCM', 'AES192-GCM', 'AES256-GCM')
+    for i, prf in enumerate(prfs):
+        for j, enc in enumerate(encs):
+            if th or (i + j) % 3 == 0 or enc == 'AES128-CBC':
+                for n in (5, 16) if th else (5,):
+                    jobs.append(('pbes2_rt', dict(prot='PBKDF2WithHMAC-%sAnd%s' % (prf, enc), n=n, pwlen=3)))
+    for enc in encs:
+        jobs.append(('pbes2_rt', dict(prot='scryptAnd%s' % enc, n=17, pwlen=4)))
     return jobs
 
 
-BOUNDS = dict(eq="components: independent symbolic integers of 8..521 bits; every privacy combination",
-              outside=["round trips (added incrementally)", "PEM text layer", "openssl as external oracle"])
+BOUNDS = dict(eq="components: independent symbolic integers of 8..521 bits; every privacy combination; ECC keys on different curves with equal / different scalars",
+              round_trips="ECC: DER (SPKI, RFC 5915, PKCS#8 in clear), SEC1 uncompressed, X25519/X448 SPKI; every private scalar with 0 / 1 (thorough 2) leading "
+              "zero bytes, every seed; PBES2: every PBKDF2 PRF x cipher combination (quick: a third of them) and every scrypt scheme, 5..17 data bytes, symbolic passphrase / salt / IV",
+              outside=["RSA / DSA export-import (their importers run the full consistency checks: symbolic only at toy width, see C05)", "PEM / OpenSSH text layer (base64 of symbolic bytes is not modelled)",
+                       "SEC1 compressed and EdDSA public keys in any format (decompression needs a modular square root), raw X25519/X448 public keys", "PBES1", "wrong-passphrase refusal (not derivable over uninterpreted ciphers)",
+                       "openssl as external oracle"])
 ASSUMPTIONS = ["an exception raised by == counts as 'not equal'", "EC points over the abstract group of vlib/pysym/ecnat.py"]
 EXPLANATION = ("bounded symbolic execution (PYSYM) of the real __eq__/__ne__ methods on key objects built from "
                "independent symbolic components; z3 decides 'equal <=> same privacy and all components equal'")
